@@ -1,4 +1,153 @@
-//! Storage-level registry family (pair_key, PAIRS, read_pairs on MockStorage).
-pub fn run(_t: &[&str]) -> String {
-    "BAD registry not built yet".to_string()
+//! Storage-level registry family: the real `pair_key`, `PAIRS` and `read_pairs`
+//! of halo-factory on `MockStorage` / `MockApi`.
+//!
+//! Assets are given as `<kind> <idhex>` with kind `n` (native denom) or `t`
+//! (token, human address canonicalised by MockApi).  An entry's identity is its
+//! index in the input; it is stored in the record's `contract_addr`.
+use crate::util::*;
+use bignumber::Decimal256;
+use cosmwasm_std::testing::{MockApi, MockStorage};
+use cosmwasm_std::Api;
+use halo_factory::state::{pair_key, read_pairs, PAIRS};
+use haloswap::asset::{AssetInfo, AssetInfoRaw, CreatePairRequirements, PairInfo, PairInfoRaw};
+
+const SEP: u64 = 999_999;
+const LOOP: u64 = 888_888;
+
+fn raw(api: &MockApi, kind: &str, idhex: &str) -> AssetInfoRaw {
+    let s = String::from_utf8(unhex(idhex)).expect("harness: non-utf8 id");
+    match kind {
+        "n" => AssetInfoRaw::NativeToken { denom: s },
+        "t" => AssetInfoRaw::Token {
+            contract_addr: api
+                .addr_canonicalize(&s)
+                .expect("harness: token address does not canonicalize"),
+        },
+        _ => panic!("harness: bad asset kind"),
+    }
+}
+
+fn entry_addr(i: usize) -> String {
+    format!("pair{:05}", i)
+}
+
+fn index_of(p: &PairInfo) -> usize {
+    p.contract_addr[4..].parse::<usize>().expect("harness: bad pair index")
+}
+
+fn build(api: &MockApi, t: &[&str], n: usize) -> (MockStorage, Vec<[AssetInfoRaw; 2]>) {
+    let mut st = MockStorage::new();
+    let mut entries = vec![];
+    for i in 0..n {
+        let a = raw(api, t[4 * i], t[4 * i + 1]);
+        let b = raw(api, t[4 * i + 2], t[4 * i + 3]);
+        let infos = [a, b];
+        let key = pair_key(&infos);
+        PAIRS
+            .save(
+                &mut st,
+                &key,
+                &PairInfoRaw {
+                    asset_infos: infos.clone(),
+                    contract_addr: api.addr_canonicalize(&entry_addr(i)).unwrap(),
+                    liquidity_token: api.addr_canonicalize("lptoken").unwrap(),
+                    asset_decimals: [6, 6],
+                    requirements: CreatePairRequirements {
+                        whitelist: vec![],
+                        first_asset_minimum: 0u128.into(),
+                        second_asset_minimum: 0u128.into(),
+                    },
+                    commission_rate: Decimal256::zero(),
+                },
+            )
+            .unwrap();
+        entries.push(infos);
+    }
+    (st, entries)
+}
+
+fn to_raw_pair(api: &MockApi, infos: &[AssetInfo; 2]) -> [AssetInfoRaw; 2] {
+    [infos[0].to_raw(api).unwrap(), infos[1].to_raw(api).unwrap()]
+}
+
+pub fn run(t: &[&str]) -> String {
+    guarded(|| {
+        let api = MockApi::default();
+        match t[0] {
+            "reg_bytes" => ok1(hex(raw(&api, t[1], t[2]).as_bytes())),
+            "reg_key" => ok1(hex(&pair_key(&[raw(&api, t[1], t[2]), raw(&api, t[3], t[4])]))),
+            // reg_walk L n entries...
+            "reg_walk" => {
+                let limit: Option<u32> = if t[1] == "-" { None } else { Some(t[1].parse().unwrap()) };
+                let n: usize = t[2].parse().unwrap();
+                let (st, _) = build(&api, &t[3..], n);
+                let mut out = vec![];
+                let mut cursor: Option<[AssetInfoRaw; 2]> = None;
+                let mut pages = 0;
+                loop {
+                    let page = match read_pairs(&st, &api, cursor.clone(), limit) {
+                        Ok(p) => p,
+                        Err(_) => return "err std".to_string(),
+                    };
+                    if page.is_empty() {
+                        break;
+                    }
+                    for p in page.iter() {
+                        out.push(index_of(p) as u64);
+                    }
+                    out.push(SEP);
+                    cursor = Some(to_raw_pair(&api, &page.last().unwrap().asset_infos));
+                    pages += 1;
+                    if pages > 200 {
+                        out.push(LOOP);
+                        break;
+                    }
+                }
+                format!(
+                    "ok {}",
+                    out.iter().map(|x| x.to_string()).collect::<Vec<_>>().join(" ")
+                )
+            }
+            // reg_page L cursor(- | idx) swap(0|1) n entries...
+            "reg_page" => {
+                let limit: Option<u32> = if t[1] == "-" { None } else { Some(t[1].parse().unwrap()) };
+                let n: usize = t[4].parse().unwrap();
+                let (st, entries) = build(&api, &t[5..], n);
+                let cursor = if t[2] == "-" {
+                    None
+                } else {
+                    let e = entries[t[2].parse::<usize>().unwrap()].clone();
+                    if t[3] == "1" {
+                        Some([e[1].clone(), e[0].clone()])
+                    } else {
+                        Some(e)
+                    }
+                };
+                match read_pairs(&st, &api, cursor, limit) {
+                    Ok(page) => format!(
+                        "ok {}",
+                        page.iter()
+                            .map(|p| index_of(p).to_string())
+                            .collect::<Vec<_>>()
+                            .join(" ")
+                    ),
+                    Err(_) => "err std".to_string(),
+                }
+            }
+            // reg_lookup k id k id n entries...   -> index of the record found under pair_key(query)
+            "reg_lookup" => {
+                let q = [raw(&api, t[1], t[2]), raw(&api, t[3], t[4])];
+                let n: usize = t[5].parse().unwrap();
+                let (st, _) = build(&api, &t[6..], n);
+                match PAIRS.load(&st, &pair_key(&q)) {
+                    Ok(p) => {
+                        let pi = p.to_normal(&api).unwrap();
+                        ok1(index_of(&pi))
+                    }
+                    Err(_) => "err std".to_string(),
+                }
+            }
+            _ => panic!("harness: unknown op"),
+        }
+    })
 }
